@@ -123,7 +123,9 @@ Proof. exact window_opening_signals. Qed.
 Print Assumptions C07_window_opening_signals.
 
 (* (c) sendPending, run to its end by the write loop (the fuel the model gives it is enough), leaves the body it was
-   called for gone or blocked, touches no other body, never raises the connection window, leaves winCh alone *)
+   called for gone or blocked, touches no other body, never raises the connection window, never takes the winCh token
+   away. (Until /repo 35b3178 it left winCh alone; it now sets the token when it hands the chunk of a request that was
+   taken back to the connection window again, addWindow(0, n): the last clause was an equation before) *)
 Theorem C07_send_pending_runs_dry : forall (hstate : Type) (dec_field : hstate -> N -> bytes -> dec_res hstate)
     (enc_field : hstate -> bytes -> bytes -> bool -> bytes * hstate) (enc_set_max : hstate -> N -> hstate)
     (cfg : cl_config) (h0 : hstate) (first : bytes) (evs : list cevent) (id : N),
@@ -134,7 +136,7 @@ Theorem C07_send_pending_runs_dry : forall (hstate : Type) (dec_field : hstate -
    exists pb', cl_pend_get (cc_pending (fst res)) id = Some pb' /\ pb_body pb' <> [] /\
                (cl_zmin (pb_window pb') (cc_connWindow (fst res)) <= 0)%Z) /\
   (forall x, x <> id -> cl_pend_get (cc_pending (fst res)) x = cl_pend_get (cc_pending c) x) /\
-  (cc_connWindow (fst res) <= cc_connWindow c)%Z /\ cc_winCh (fst res) = cc_winCh c.
+  (cc_connWindow (fst res) <= cc_connWindow c)%Z /\ (cc_winCh c = true -> cc_winCh (fst res) = true).
 Proof. exact send_pending_runs_dry. Qed.
 Print Assumptions C07_send_pending_runs_dry.
 
@@ -290,3 +292,230 @@ Example C07_stream_grant_resumes_example :
              map brief (cc_out (fst (cl_send_pending 2 c1 1))) = COData 1 true [8] :: map brief (cc_out c) /\
              cc_pending (fst (cl_send_pending 2 c1 1)) = [].
 Proof. cbv zeta. eexists. split; [vm_compute; reflexivity|]. vm_compute. repeat split. Qed.
+
+(* ====================================================================================================================
+   (d) "... and finishes", over all event lists: streamed bodies, any number of uploads sharing the connection window.
+   Proofs/CliFlowC*.v.
+
+   The body of a request as the connection will see it is `rq_body rq = (B, ok)` (Proofs/CliFlowCBody.v): a buffered body
+   is its bytes; a streamed one is the chunks its scripted reader answers with, as refillPending consumes them, up to
+   EOF, to the declared length being reached, or to the reader failing / answering (0, nil) (ok = false: the body cannot
+   be finished). What is left of it in a pending body pb is `pb_all pb` (the buffered rest, then what the reader will
+   still deliver). `data_bytes sid tr` / `end_streams sid tr` (Proofs/CliDefs.v): the DATA payload written on the stream,
+   in order; the END_STREAM flags written on it (HEADERS or DATA).
+
+   The caveat of the header applies: one select case of the write loop is one step. *)
+From H2V Require Import Proofs.CliFlowCBody Proofs.CliFlowCInv Proofs.CliFlowCWin Proofs.CliFlowCExact Proofs.CliFlowCThm Proofs.CliFlowCEx.
+
+(* the Request a Ctx carries is the one its caller submitted under that tag (tags name Ctx objects) *)
+Theorem C07_request_is_submitted : forall (hstate : Type) (dec_field : hstate -> N -> bytes -> dec_res hstate)
+    (enc_field : hstate -> bytes -> bytes -> bool -> bytes * hstate) (enc_set_max : hstate -> N -> hstate)
+    (cfg : cl_config) (h0 : hstate) (first : bytes) (evs : list cevent) (tag : N) (x : cctx),
+  cl_ctx_get (cl_run dec_field enc_field enc_set_max cfg h0 first evs) tag = Some x ->
+  exists pre rq q post, evs = pre ++ CEvSubmit tag rq q :: post /\
+    cl_ctx_get (cl_run dec_field enc_field enc_set_max cfg h0 first pre) tag = None /\ ct_req x = rq.
+Proof. exact ctx_submitted. Qed.
+Print Assumptions C07_request_is_submitted.
+
+(* after ANY events, for every request that writeRequest has given a stream (ct_conn; the stream is ct_sid):
+   - the DATA payloads written on its stream are, in order, a prefix of its body;
+   - END_STREAM has been written on the stream at most once, and if it has, all of the body is out, its reader ended
+     well, and nothing of it is pending;
+   - while the write loop runs, a body still pending holds exactly the rest (no END_STREAM yet), and if no winCh token is
+     waiting it has bytes buffered and is blocked by a send window that is not positive (C07_no_stall);
+   - while the write loop runs, the request is on the request table and its caller has not taken the Ctx back, the body
+     is pending or END_STREAM is out: nobody drops the body of a live request.
+   (Frame sizes: C07_frame_size. No frame after END_STREAM: C07_end_stream_once.) *)
+Theorem C07_upload_whole_run : forall (hstate : Type) (dec_field : hstate -> N -> bytes -> dec_res hstate)
+    (enc_field : hstate -> bytes -> bytes -> bool -> bytes * hstate) (enc_set_max : hstate -> N -> hstate)
+    (cfg : cl_config) (h0 : hstate) (first : bytes) (evs : list cevent) (tag : N) (x : cctx),
+  let c := cl_run dec_field enc_field enc_set_max cfg h0 first evs in
+  cl_ctx_get c tag = Some x -> ct_conn x = true ->
+  let id := ct_sid x in
+  let B := fst (rq_body (ct_req x)) in
+  let ok := snd (rq_body (ct_req x)) in
+  (exists rest, data_bytes id (cl_trace c) ++ rest = B) /\
+  (end_streams id (cl_trace c) <= 1)%nat /\
+  (end_streams id (cl_trace c) = 1%nat -> data_bytes id (cl_trace c) = B /\ ok = true /\ cl_pend_get (cc_pending c) id = None) /\
+  (cl_wl_live c = true -> forall pb, cl_pend_get (cc_pending c) id = Some pb ->
+     end_streams id (cl_trace c) = 0%nat /\ data_bytes id (cl_trace c) ++ pb_all pb = B /\ pb_ok pb = ok /\
+     (cc_winCh c = false -> pb_body pb <> [] /\ (cl_zmin (pb_window pb) (cc_connWindow c) <= 0)%Z)) /\
+  (cl_wl_live c = true -> In (id, tag) (cc_reqQueued c) -> ct_done x = false ->
+     cl_pend_get (cc_pending c) id <> None \/ end_streams id (cl_trace c) = 1%nat).
+Proof. exact upload_whole_run. Qed.
+Print Assumptions C07_upload_whole_run.
+
+(* the same as one alternative. The write loop runs and has caught up (no winCh token), the request is on the request
+   table (not answered, reset, cancelled, refused by GOAWAY) and its caller has not taken the Ctx back: EITHER all of the
+   body is out and END_STREAM was written, exactly once, OR the rest of the body is pending, with bytes buffered, and one
+   of the two send windows (the body's, the connection's) is not positive *)
+Theorem C07_upload_dichotomy : forall (hstate : Type) (dec_field : hstate -> N -> bytes -> dec_res hstate)
+    (enc_field : hstate -> bytes -> bytes -> bool -> bytes * hstate) (enc_set_max : hstate -> N -> hstate)
+    (cfg : cl_config) (h0 : hstate) (first : bytes) (evs : list cevent) (tag : N) (x : cctx),
+  let c := cl_run dec_field enc_field enc_set_max cfg h0 first evs in
+  cl_ctx_get c tag = Some x -> cl_wl_live c = true -> cc_winCh c = false ->
+  In (ct_sid x, tag) (cc_reqQueued c) -> ct_done x = false ->
+  let id := ct_sid x in
+  let B := fst (rq_body (ct_req x)) in
+  (data_bytes id (cl_trace c) = B /\ end_streams id (cl_trace c) = 1%nat /\ snd (rq_body (ct_req x)) = true /\
+   cl_pend_get (cc_pending c) id = None) \/
+  (exists pb, cl_pend_get (cc_pending c) id = Some pb /\ data_bytes id (cl_trace c) ++ pb_all pb = B /\
+              end_streams id (cl_trace c) = 0%nat /\ pb_body pb <> [] /\ (cl_zmin (pb_window pb) (cc_connWindow c) <= 0)%Z).
+Proof. exact upload_dichotomy. Qed.
+Print Assumptions C07_upload_dichotomy.
+
+(* the client's send windows against the server's ledger (the ledger of C07_ledger_valid) after any events, whether the
+   write loop runs or not: never above it (the safety theorem), and a pending body's window is below its ledger window
+   by at most what the connection window is below the ledger's. The only thing that takes them below is a critical
+   section of sendPending whose bytes are debited and then neither written nor handed back: it debits both windows by
+   the same amount (and ends the write loop: C07_windows_exact). A chunk handed back to the connection window
+   (addWindow(0, n), /repo 35b3178) is no grant of the server's: the ledger never saw the window go down for it *)
+Theorem C07_windows_vs_ledger : forall (hstate : Type) (dec_field : hstate -> N -> bytes -> dec_res hstate)
+    (enc_field : hstate -> bytes -> bytes -> bool -> bytes * hstate) (enc_set_max : hstate -> N -> hstate)
+    (cfg : cl_config) (h0 : hstate) (first : bytes) (evs : list cevent),
+  cl_settings_deserialize false first <> None ->
+  GOK ledger0 (g_ledger hstate dec_field enc_field enc_set_max cfg h0 first evs) ->
+  let c := cl_run dec_field enc_field enc_set_max cfg h0 first evs in
+  let L := lrun ledger0 (g_ledger hstate dec_field enc_field enc_set_max cfg h0 first evs) in
+  (0 <= cc_connWindow c <= l_conn L)%Z /\
+  forall pb, In pb (cc_pending c) ->
+    exists w, l_strm L (pb_id pb) = Some w /\ (pb_window pb <= w)%Z /\ (w - pb_window pb <= l_conn L - cc_connWindow c)%Z.
+Proof. exact windows_vs_ledger. Qed.
+Print Assumptions C07_windows_vs_ledger.
+
+(* while the write loop runs the client's send windows ARE the server's ledger windows (the client-side analogue of
+   C06_windows_exact): the connection window, and the window of every pending body. A critical section whose bytes are
+   debited and neither written nor handed back happens only when the DATA write fails or the write loop parks for ever
+   on a Ctx lock, and both end the write loop in the same select case *)
+Theorem C07_windows_exact : forall (hstate : Type) (dec_field : hstate -> N -> bytes -> dec_res hstate)
+    (enc_field : hstate -> bytes -> bytes -> bool -> bytes * hstate) (enc_set_max : hstate -> N -> hstate)
+    (cfg : cl_config) (h0 : hstate) (first : bytes) (evs : list cevent),
+  cl_settings_deserialize false first <> None ->
+  GOK ledger0 (g_ledger hstate dec_field enc_field enc_set_max cfg h0 first evs) ->
+  cl_wl_live (cl_run dec_field enc_field enc_set_max cfg h0 first evs) = true ->
+  cc_connWindow (cl_run dec_field enc_field enc_set_max cfg h0 first evs)
+    = l_conn (lrun ledger0 (g_ledger hstate dec_field enc_field enc_set_max cfg h0 first evs)) /\
+  forall pb, In pb (cc_pending (cl_run dec_field enc_field enc_set_max cfg h0 first evs)) ->
+    l_strm (lrun ledger0 (g_ledger hstate dec_field enc_field enc_set_max cfg h0 first evs)) (pb_id pb) = Some (pb_window pb).
+Proof. exact windows_exact. Qed.
+Print Assumptions C07_windows_exact.
+
+(* the corollary, in terms of what the SERVER granted only: if in the server's ledger (initial windows + the grants the
+   read loop has applied - the DATA bytes written) the connection window and the stream's window are positive, then under
+   the hypotheses of the dichotomy the whole body and END_STREAM have been sent, END_STREAM exactly once. (Before /repo
+   35b3178 this needed the hypothesis `cc_connWindow c = l_conn L` and was false without it: sendPending did not hand
+   back the chunk of a request that had been taken back, see ex_leak in Proofs/CliFlowCEx.v) *)
+Theorem C07_completes_when_granted : forall (hstate : Type) (dec_field : hstate -> N -> bytes -> dec_res hstate)
+    (enc_field : hstate -> bytes -> bytes -> bool -> bytes * hstate) (enc_set_max : hstate -> N -> hstate)
+    (cfg : cl_config) (h0 : hstate) (first : bytes) (evs : list cevent) (tag : N) (x : cctx) (w : Z),
+  let c := cl_run dec_field enc_field enc_set_max cfg h0 first evs in
+  let L := lrun ledger0 (g_ledger hstate dec_field enc_field enc_set_max cfg h0 first evs) in
+  cl_settings_deserialize false first <> None ->
+  GOK ledger0 (g_ledger hstate dec_field enc_field enc_set_max cfg h0 first evs) ->
+  cl_ctx_get c tag = Some x -> cl_wl_live c = true -> cc_winCh c = false ->
+  In (ct_sid x, tag) (cc_reqQueued c) -> ct_done x = false ->
+  (0 < l_conn L)%Z -> l_strm L (ct_sid x) = Some w -> (0 < w)%Z ->
+  data_bytes (ct_sid x) (cl_trace c) = fst (rq_body (ct_req x)) /\ end_streams (ct_sid x) (cl_trace c) = 1%nat /\
+  cl_pend_get (cc_pending c) (ct_sid x) = None.
+Proof. exact completes_when_granted. Qed.
+Print Assumptions C07_completes_when_granted.
+
+(* the same for the instance with the real HPACK coder: the statement that the run ex_leak refuted before the fix *)
+Theorem C07_completes_when_granted_strong : completes_when_granted_strong_statement.
+Proof. exact completes_when_granted_strong. Qed.
+Print Assumptions C07_completes_when_granted_strong.
+
+(* ---------- examples ---------- *)
+
+Example C07_request_is_submitted_example :
+  option_map (fun x => (ct_sid x, match cq_body (ct_req x) with CBuf b => len b | CStream _ _ => 0 end))
+             (cl_ctx_get (cli_run ex_cfg [] ex_two_uploads_blocked) 1) = Some (3, 70000).
+Proof. vm_compute. reflexivity. Qed.
+
+(* two uploads, 100000 bytes streamed in eight odd-sized reads on stream 1 and 70000 bytes buffered on stream 3, share the
+   connection window; grants arrive in pieces on the connection and on stream 1, SETTINGS lowers INITIAL_WINDOW_SIZE to
+   60000 and raises MAX_FRAME_SIZE to 32768 in between. After ex_two_uploads_blocked: 65535 bytes of the first body and
+   30000 of the second are out, in order, no END_STREAM; the rest is pending (12578 bytes buffered and two reads to come;
+   40000 bytes); both stream windows are positive, the connection window is 0 *)
+Example C07_upload_whole_run_example :
+  let c := cli_run ex_cfg [] ex_two_uploads_blocked in
+  ex_flow c = ([(1, 12578, 14465%Z); (3, 40000, 30000%Z)], 0%Z, false, 32768, [(1, 0); (3, 1)]) /\
+  cl_wl_live c = true /\
+  option_map (fun x => (ct_conn x, ct_sid x, ct_done x, len (fst (rq_body (ct_req x))), snd (rq_body (ct_req x)))) (cl_ctx_get c 0)
+    = Some (true, 1, false, 100000, true) /\
+  len (data_bytes 1 (cl_trace c)) = 65535 /\ end_streams 1 (cl_trace c) = 0%nat /\
+  len (data_bytes 3 (cl_trace c)) = 30000 /\ end_streams 3 (cl_trace c) = 0%nat /\
+  map (fun pb => len (pb_all pb)) (cc_pending c) = [34465; 40000] /\
+  map brief (cl_trace c) =
+    [COHeaders 1 false []; COData 1 false [7001]; COData 1 false [12345]; COData 1 false [16384]; COData 1 false [9999];
+     COData 1 false [16383]; COData 1 false [3423]; COHeaders 3 false []; COData 3 false [16384]; COData 3 false [13616];
+     COSettingsAck; COSettingsAck].
+Proof.
+  cbv zeta. vm_compute. repeat split.
+Qed.
+
+(* the second alternative of the dichotomy holds there for both requests (blocked by the connection window); after
+   ex_two_uploads_done the first one: everything out, END_STREAM once, on the last frame *)
+Example C07_upload_dichotomy_example :
+  let c := cli_run ex_cfg [] ex_two_uploads_done in
+  ex_flow c = ([], 25535%Z, false, 32768, [(1, 0); (3, 1)]) /\ cl_wl_live c = true /\
+  option_map (fun x => (ct_sid x, ct_done x, bytes_eqb (data_bytes 1 (cl_trace c)) (fst (rq_body (ct_req x))))) (cl_ctx_get c 0)
+    = Some (1, false, true) /\
+  option_map (fun x => (ct_sid x, ct_done x, bytes_eqb (data_bytes 3 (cl_trace c)) (fst (rq_body (ct_req x))))) (cl_ctx_get c 1)
+    = Some (3, false, true) /\
+  end_streams 1 (cl_trace c) = 1%nat /\ end_streams 3 (cl_trace c) = 1%nat /\
+  map brief (skipn 12 (cl_trace c)) =
+    [COData 1 false [12578]; COData 1 false [1887]; COData 3 false [30000]; COData 1 false [9224]; COData 1 true [10776];
+     COBodyClosed 0; COData 3 true [10000]].
+Proof.
+  cbv zeta. vm_compute. repeat split.
+Qed.
+
+(* the ledger after ex_two_uploads_done: the client's windows are exactly the server's *)
+Example C07_windows_vs_ledger_example :
+  let L := lrun ledger0 (cli_ledger ex_cfg [] ex_two_uploads_done) in
+  GOK ledger0 (cli_ledger ex_cfg [] ex_two_uploads_done) /\
+  (l_conn L, l_strm L 1, l_strm L 3) = (25535%Z, Some 30000%Z, Some 40000%Z) /\
+  cc_connWindow (cli_run ex_cfg [] ex_two_uploads_done) = l_conn L /\
+  (let L1 := lrun ledger0 (cli_ledger ex_cfg [] ex_two_uploads_blocked) in
+   (l_conn L1, l_strm L1 1, l_strm L1 3) = (0%Z, Some 14465%Z, Some 30000%Z)).
+Proof. cbv zeta. split; [apply gokb_sound; vm_compute; reflexivity|]. vm_compute. repeat split. Qed.
+
+(* the hypotheses of the corollary hold after ex_two_uploads_done, for both requests *)
+Example C07_completes_when_granted_example :
+  let c := cli_run ex_cfg [] ex_two_uploads_done in
+  let L := lrun ledger0 (cli_ledger ex_cfg [] ex_two_uploads_done) in
+  cl_settings_deserialize false [] <> None /\ GOK ledger0 (cli_ledger ex_cfg [] ex_two_uploads_done) /\
+  cl_wl_live c = true /\ cc_winCh c = false /\ cc_reqQueued c = [(1, 0); (3, 1)] /\
+  cc_connWindow c = l_conn L /\ (0 < l_conn L)%Z /\ l_strm L 1 = Some 30000%Z /\ l_strm L 3 = Some 40000%Z.
+Proof.
+  cbv zeta. split; [vm_compute; discriminate|]. split; [apply gokb_sound; vm_compute; reflexivity|]. vm_compute. repeat split.
+Qed.
+
+(* the former leak (Proofs/CliFlowCEx.v): before /repo 35b3178 ex_leak ended with 465 bytes of the second upload pending,
+   the client's connection window 0 and the server's 64990. Now the 64990 bytes the write loop debited for the request
+   that had been taken back are handed back: the second upload goes out completely and the windows agree *)
+Example C07_former_conn_window_leak_completes :
+  let c := cli_run ex_cfg_armed ex_first_w10 ex_leak in
+  let L := lrun ledger0 (cli_ledger ex_cfg_armed ex_first_w10 ex_leak) in
+  ex_flow c = ([], 64525%Z, false, 16384, [(3, 1)]) /\ cl_wl_live c = true /\
+  (l_conn L, l_strm L 3) = (64525%Z, Some 1010%Z) /\ GOK ledger0 (cli_ledger ex_cfg_armed ex_first_w10 ex_leak) /\
+  map brief (cl_trace c) =
+    [COHeaders 1 false []; COData 1 false [10]; COResult 0 false CETimeout cl_empty_resp; CORst 1 8;
+     COHeaders 3 false []; COData 3 false [10]; COData 3 true [990]] /\
+  (* after the chunk has been handed back: the connection window is whole again, the token is set *)
+  ex_flow (cli_run ex_cfg_armed ex_first_w10 (firstn 6 ex_leak)) = ([], 65525%Z, true, 16384, []).
+Proof.
+  cbv zeta. split; [vm_compute; reflexivity|]. split; [vm_compute; reflexivity|]. split; [vm_compute; reflexivity|].
+  split; [apply gokb_sound; vm_compute; reflexivity|]. split; vm_compute; reflexivity.
+Qed.
+
+(* observation: a streamed body whose reader hands over more bytes than the declared length is sent as read: the read
+   that reaches the length ends the body (refillPending sets drained) but is not cut to it. Here content-length 3 and a
+   reader that answers with 5 bytes: 5 bytes of DATA with END_STREAM (RFC 7540 8.1.2.6 makes such a request malformed;
+   fasthttp's own writer would have stopped at 3) *)
+Example C07_declared_length_overshoot_observation :
+  let evs := [CEvSubmit 0 (ex_post (CStream [([1; 2; 3; 4; 5], RNil); ([6], REof)] 3)) true; CEvWLIn] in
+  map brief (cl_trace (cli_run ex_cfg [] evs)) = [COHeaders 1 false []; COData 1 true [5]; COBodyClosed 0] /\
+  data_bytes 1 (cl_trace (cli_run ex_cfg [] evs)) = [1; 2; 3; 4; 5].
+Proof. cbv zeta. vm_compute. split; reflexivity. Qed.
